@@ -343,7 +343,10 @@ class NdpolyNew(Contract):
         p = Poly(ctx, ctx.fresh("new"), N=E.n, D=E.D, row=rows, shape=shp, dtype=dt, names=nm,
                  region=Region("fresh", "ndpoly()"), init=lambda t, i: z3.BoolVal(False))
         p.owndata = z3.BoolVal(True)
-        p.allocation = allocation
+        p.allocation = allocation if allocation is not None else 2 * E.n
+        hook = getattr(ex, "hooks", {}).get("after_ndpoly") if isinstance(getattr(ex, "hooks", None), dict) else None
+        if hook:
+            hook(ex, p)
         return p
 
 
@@ -747,6 +750,8 @@ class PolynomialFromAttributes(Contract):
                  shape=c0.shape, dtype=dt, names=nm, region=Region("fresh", "from_attributes"))
         r.owndata = z3.BoolVal(True)
         ctx.assume(r.wf(ctx))
+        # its rows are (column projections of) rows handed in, which were required to be storable above
+        ctx.assume(ctx.forall_range(0, r.N, lambda t: keyok(r.row(t), r.D)))
         # abstract value: attributes taken from one polynomial denote that polynomial (B1)
         srcE, srcC = getattr(b.get("exponents"), "source", None), getattr(Cin, "source", None)
         if isinstance(srcE, Poly) and srcC is not None and srcC[0] is srcE:
